@@ -47,6 +47,16 @@ def cases(tier, rng):
         for polls in (1, 2):
             out.append("z%d sock %s / attach a %s / recvp %d / recvw a %s / recv" % (k, t, scen.PEER[t], polls, W.tok(W.msg(body))))
             k += 1
+    # several hundred messages, each picked up by a recv that is polled once and dropped: every one comes out, once, in order
+    for t in ("PULL", "SUB", "DEALER", "ROUTER", "REP", "XPUB"):
+        nmsg = 250 if tier == "quick" else 1200
+
+        def mk(i_):
+            tag = b"%04d" % i_
+            return [b"", tag] if t == "REP" else [b"\x01" + tag] if t == "XPUB" else [tag]
+        feed = W.tok(b"".join(W.msg(mk(i_)) for i_ in range(nmsg)))
+        out.append("l%d.%d sock %s / attach a %s / feed a %s / %s / recv / recv" % (k, nmsg, t, scen.PEER[t], feed, " / ".join(["recvp 1"] * (nmsg + 20))))
+        k += 1
     # a connection announcing the identity of a connection that is still registered takes its place: what the new
     # connection sends must come out (old connection idle / already read / with a message read before the take-over)
     for t in ("PULL", "SUB", "DEALER", "ROUTER", "REP", "XPUB"):
@@ -65,7 +75,7 @@ def cases(tier, rng):
 
 
 def compare_filter(line):
-    return not line.startswith("y")      # the World model assumes distinct identities
+    return not line.startswith(("y", "l"))      # the World model assumes distinct identities; l: long runs, oracle only
 
 
 def model_cases(case_lines):
@@ -215,6 +225,14 @@ def judge(line, obs, orc):
         return "implementation " + str(obs)[:80]
     if line.split()[1] == "fq":
         return fq_judge(line, obs)
+    if line.startswith("l"):
+        nmsg = int(line.split()[0].split(".")[1])
+        got = [tk.split("=ok:", 1)[1].split(";")[-1][-8:] for tk in obs.split() if tk.startswith(("r=ok:", "rp=ok:"))]
+        want = [(b"%04d" % i_).hex() for i_ in range(nmsg)]
+        if got != want:
+            miss = [bytes.fromhex(w).decode() for w in want if w not in got][:6]
+            return "%d messages on one connection: %d were returned; missing %s%s" % (nmsg, len(got), miss, "" if sorted(got) == got else "; order changed")
+        return None
     if line.startswith("y"):
         got = [t for t in obs.split() if t.startswith("r=")]
         want = ["6e657731", "6e657732"]
